@@ -122,7 +122,7 @@ class RngModel(Ext):
                     n *= s
                 xs = [self._u(I_, 0, 1, "u") for _ in range(n)]
                 t = Tensor(shp, xs)
-                self.draws.append(("random", (shp,), t))
+                self.draws.append(("random", (shp,), Tensor(shp, xs)))
                 return t
             return Builtin("rng.random", random)
         if name == "uniform":
@@ -144,7 +144,7 @@ class RngModel(Ext):
                     n *= s
                 xs = [self._u(I_, lo, hi, "x") for _ in range(n)]
                 t = Tensor(shp, xs)
-                self.draws.append(("uniform", (lo, hi, shp), t))
+                self.draws.append(("uniform", (lo, hi, shp), Tensor(shp, xs)))
                 return t
             return Builtin("rng.uniform", uniform)
         if name == "standard_normal":
@@ -160,7 +160,8 @@ class RngModel(Ext):
                     n *= s
                 xs = [I_.path.fresh(f"{self.name}_z{len(self.draws)}_{i}", "real") for i in range(n)]
                 t = Tensor(shp, xs) if shp else xs[0]
-                self.draws.append(("standard_normal", (shp,), t))
+                # the ghost record keeps its OWN copy of the drawn values: the program may reuse the returned array as a buffer
+                self.draws.append(("standard_normal", (shp,), Tensor(shp, xs) if shp else xs[0]))
                 return t
             return Builtin("rng.standard_normal", normal)
         if name == "choice":
